@@ -91,6 +91,19 @@ def is_bool(v):
     return isinstance(v, (bool, SBool))
 
 
+def is_true(v):
+    """v is the boolean True (also when the code computed it symbolically, e.g. `return cs == X`)"""
+    if isinstance(v, SBool):
+        return v
+    return v is True
+
+
+def is_false(v):
+    if isinstance(v, SBool):
+        return Not(v)
+    return v is False
+
+
 def is_none(v):
     return v is None
 
